@@ -12,6 +12,8 @@ omits the definition, and every theorem about it stops compiling):
    before the store;
  * which scale/offset index each of x, y, z uses in `ScaleAwarePointRecord.__getitem__` and in
    `apply_new_scaling`;
+ * whether `LasData.__setattr__` (x, y, z) and the `LasData.xyz` setter make the record take the header's scale/offset
+   arrays before storing, and the axis order of the xyz setter;
  * the limits of the integer type the coordinates are stored in (running module).
 """
 import ast
@@ -258,6 +260,57 @@ def gen_scaling(repo):
             "({}%nat, {}%nat, {}%nat)".format(*rows[ax]) for ax in "xyz") + "].\n"
         return txt
     o.add("view_axes", view_axes)
+
+    lasdata = py2v.parse(repo, "laspy/lasdata.py")
+    SYNC = ["self.points.offsets = self.header.offsets", "self.points.scales = self.header.scales"]
+
+    def syncs_before(stmts, store_pred, what):
+        """True when both sync statements precede the store, False when neither is there; anything else is not understood"""
+        texts = [ast.unparse(s) for s in stmts]
+        store = [i for i, s in enumerate(texts) if store_pred(s)]
+        if len(store) != 1:
+            raise Untranslatable(f"{what}: the coordinate store was not found")
+        found = [x in texts[:store[0]] for x in SYNC]
+        if all(found):
+            return "true"
+        if not any(found) and not any(x in texts for x in SYNC):
+            return "false"
+        raise Untranslatable(f"{what}: only part of the scaling is taken from the header")
+
+    def setattr_syncs():
+        cls = py2v.find_class(lasdata, "LasData")
+        fn = py2v.find_func(cls, "__setattr__")
+        branch = None
+        for s in fn.body:
+            if isinstance(s, ast.If) and ast.unparse(s.test) == "key in ('x', 'y', 'z')":
+                branch = s.body
+        if branch is None:
+            raise Untranslatable("LasData.__setattr__: no branch for key in ('x', 'y', 'z')")
+        b = syncs_before(branch, lambda s: s == "self.points[key] = value", "LasData.__setattr__")
+        return ("(* LasData.__setattr__, key in (x, y, z): the record takes the header's offsets and scales arrays before self.points[key] = value *)\n"
+                f"Definition gen_setattr_syncs : bool := {b}.\n")
+    o.add("setattr_syncs", setattr_syncs)
+
+    def xyz_setter():
+        cls = py2v.find_class(lasdata, "LasData")
+        fn = py2v.find_func(cls, "xyz", "xyz.setter")
+        stmts = [s for s in fn.body if not (isinstance(s, ast.Expr) and isinstance(s.value, ast.Constant))]
+        def is_store(s):
+            return (isinstance(s, ast.Assign) and isinstance(s.targets[0], ast.Subscript)
+                    and ast.unparse(s.targets[0].value) == "self.points" and isinstance(s.targets[0].slice, ast.Tuple))
+        store = [s for s in stmts if is_store(s)]
+        if len(store) != 1 or ast.unparse(store[0].value) != "value":
+            raise Untranslatable("LasData.xyz setter: no self.points[(...)] = value")
+        key = store[0].targets[0].slice
+        if not (isinstance(key, ast.Tuple) and all(isinstance(e, ast.Constant) and e.value in ("x", "y", "z") for e in key.elts)):
+            raise Untranslatable(f"LasData.xyz setter: key {ast.unparse(key)}")
+        axes = ["xyz".index(e.value) for e in key.elts]
+        b = syncs_before(stmts, lambda s: s == ast.unparse(store[0]), "LasData.xyz setter")
+        return ("(* LasData.xyz setter: column i of the value goes to axis gen_xyz_axes[i], in this order, through the record; "
+                "whether the record first takes the header's arrays *)\n"
+                f"Definition gen_xyz_syncs : bool := {b}.\n"
+                "Definition gen_xyz_axes : list nat := [" + "; ".join(f"{a}%nat" for a in axes) + "].\n")
+    o.add("xyz_setter", xyz_setter)
 
     def limits():
         sys.path.insert(0, repo)
